@@ -193,6 +193,12 @@ impl<C: Ciphersuite> Lab<C> for ConcLab<C> {
     fn draw_scalar(&mut self, _k: usize) -> Option<Scalar<C>> {
         None
     }
+    fn cmp_scalars(&mut self, a: Scalar<C>, b: Scalar<C>) -> core::cmp::Ordering {
+        use frost_core::{Field, Group};
+        let x = <<C::Group as Group>::Field as Field>::little_endian_serialize(&a);
+        let y = <<C::Group as Group>::Field as Field>::little_endian_serialize(&b);
+        x.as_ref().iter().rev().cmp(y.as_ref().iter().rev())
+    }
     fn draw_bytes(&mut self, k: usize) -> Option<Vec<u8>> {
         self.rng.bytes.get(k).cloned()
     }
